@@ -4,7 +4,7 @@ from vlib import setcheck as SC, sets as S
 PROPERTY = 'C19'
 LEVEL = 'proof'
 
-LOOKUPS = {'find', 'has', 'cnt', 'lb', 'ub', 'eqr', 'ins', 'insm', 'emp', 'era'}
+LOOKUPS = {'find', 'has', 'cnt', 'lb', 'ub', 'eqr', 'ins', 'insm', 'emp', 'era', 'hfind', 'hhas', 'hcnt', 'hlb', 'hub'}
 
 def count_pred(cfg, lines, obs):
     out = []
@@ -80,6 +80,19 @@ def run(ctx):
     nf = 70 if ctx.tier == 'quick' else 90
     cfgs = [S.SetCfg('flat', cmp='less', pool=2), S.SetCfg('flat', cmp='greater', uvec='std', pool=2)]
     SC.run(ctx, cfgs, gen_lookup, nf, preds=(SC.oracle_pred, count_pred), nontrivial=lambda c, l, o: len(l) > 20, label='C19 lookup counts')
+    # heterogeneous lookups under a transparent comparator: a key equivalent to a run of up to four elements
+    def gen_het(rng, cfg, k):
+        n = (k * 7) % 65 if k < 30 else rng.choice([100, 500, 2000])
+        keys = list(range(0, n))
+        rng.shuffle(keys)
+        lines = ['insr 0 ' + ','.join(map(str, keys[i:i + 30])) for i in range(0, len(keys), 30)]
+        bands = list(range(0, n // 4 + 2)) if n <= 64 else [rng.randrange(0, n // 4 + 2) for _ in range(40)]
+        for d in bands:
+            for op in ('hfind', 'hhas', 'hcnt', 'hlb', 'hub'):
+                lines.append(f'{op} 0 {d}')
+        return lines
+    SC.run(ctx, [S.SetCfg('flat', cmp='transp', pool=2), S.SetCfg('flat', cmp='transp', uvec='std', pool=2)], gen_het, 30 if ctx.tier == 'quick' else 45,
+           preds=(SC.oracle_pred, count_pred), nontrivial=lambda c, l, o: len(l) > 10, label='C19 heterogeneous lookup counts')
     scfgs = [S.SetCfg('small', 3, 'std', cmp='less'), S.SetCfg('small', 6, 'flat', cmp='less')]
     SC.run(ctx, scfgs, gen_small, 40 if ctx.tier == 'quick' else 200, preds=(SC.oracle_pred, small_pred),
            nontrivial=lambda c, l, o: any(x.split()[0] in ('find', 'has', 'cnt') for x in l), label='C19 inline lookups')
@@ -87,7 +100,7 @@ def run(ctx):
     ctx.coverage['rule'] = ('FlatSet of n odd keys for every n in 0..64 (exhaustive) and sampled n in {100, 500, 2000}: every key of every rank '
                             '(present and absent) looked up with find/contains/count/lower_bound/upper_bound/equal_range, comparator calls '
                             'counted on the real set, compared with 2*ceil(log2(n+1))+4 and with the Lean model count (exact); hinted insertions '
-                            'with the hint where the value belongs, count compared with the model (<= 4 proved for correct hints); inline SmallSet '
+                            'heterogeneous find/contains/count/lower_bound/upper_bound with a key equivalent to a run of elements (transparent comparator), counts exact against the model; with the hint where the value belongs, count compared with the model (<= 4 proved for correct hints); inline SmallSet '
                             'lookups <= 2N+2')
 
 def replay(ctx, path):
